@@ -75,6 +75,10 @@ class Pool:
             "PYTHONDONTWRITEBYTECODE": "1",
             "PYTHONPATH": os.path.join(REPO, "src"),
         }
+        if os.environ.get("VERIF_COV"):  # development aid, see vlib/cov.py
+            env["VERIF_COV"] = os.environ["VERIF_COV"]
+            env["GWF_VERIF_REPO"] = REPO
+            env["PYTHONPATH"] = os.path.join(os.path.dirname(os.path.abspath(__file__)), "covsite") + os.pathsep + env["PYTHONPATH"]
         self.proc = subprocess.Popen(
             [sys.executable, "-X", "dev", "-c", "import sys; from gwf.cli import main; sys.argv=['gwf']+sys.argv[1:]; main()", "-b", "local", "-v", "debug", "workers", "-n", str(self.ncores), "-p", str(self.port), "-h", "127.0.0.1"],
             cwd=self.proj.root,
